@@ -8,7 +8,7 @@ the comparison theorems need `0 < w`, the C has w ∈ {16, 32, 64}).
 Each theorem is followed by an `example` with concrete non-trivial operands satisfying the
 hypotheses (and evaluating the executable model on them).
 -/
-import Bee2V.C14.LemmasCmp9
+import Bee2V.C14.LemmasCmp11
 namespace Bee2V.C14
 open Cmp
 
@@ -245,5 +245,44 @@ example : wwIsRepW_safe [7, 7, 7#64] 3 7 = true ∧ wwIsRepW_fast [7, 7, 1#64] 3
     ∧ wwIsRepW_fast [1, 7, 7#64] 3 7 = false := by decide
 
 end WW
+
+/-! ### u16.c / u32.c / u64.c
+`ctzSpec x` / `clzSpec x`: index of the first set bit from the bottom / from the top (the width
+for x = 0).  SAFE = SWAR weight of `w | -w` resp. of the complemented smear; FAST = dichotomy. -/
+section UNN
+
+theorem u16CTZ_safe_spec (w : BitVec 16) : u16CTZ_safe w = ctzSpec w := u16CTZ_safe_eq w
+theorem u16CTZ_fast_spec (w : BitVec 16) : u16CTZ_fast w = ctzSpec w := u16CTZ_fast_eq w
+theorem u32CTZ_safe_spec (w : BitVec 32) : u32CTZ_safe w = ctzSpec w := u32CTZ_safe_eq w
+theorem u32CTZ_fast_spec (w : BitVec 32) : u32CTZ_fast w = ctzSpec w := u32CTZ_fast_eq w
+theorem u64CTZ_safe_spec (w : BitVec 64) : u64CTZ_safe w = ctzSpec w := u64CTZ_safe_eq w
+theorem u64CTZ_fast_spec (w : BitVec 64) : u64CTZ_fast w = ctzSpec w := u64CTZ_fast_eq w
+
+theorem u16CLZ_safe_spec (w : BitVec 16) : u16CLZ_safe w = clzSpec w := u16CLZ_safe_eq w
+theorem u16CLZ_fast_spec (w : BitVec 16) : u16CLZ_fast w = clzSpec w := u16CLZ_fast_eq w
+theorem u32CLZ_safe_spec (w : BitVec 32) : u32CLZ_safe w = clzSpec w := u32CLZ_safe_eq w
+theorem u32CLZ_fast_spec (w : BitVec 32) : u32CLZ_fast w = clzSpec w := u32CLZ_fast_eq w
+theorem u64CLZ_safe_spec (w : BitVec 64) : u64CLZ_safe w = clzSpec w := u64CLZ_safe_eq w
+theorem u64CLZ_fast_spec (w : BitVec 64) : u64CLZ_fast w = clzSpec w := u64CLZ_fast_eq w
+
+/-- the spec really counts zeros: below `ctzSpec x` all bits are clear, the bit at it is set -/
+theorem ctzSpec_char {n : Nat} (x : BitVec n) :
+    ctzSpec x ≤ n ∧ (∀ j < ctzSpec x, x.getLsbD j = false) ∧ (ctzSpec x < n → x.getLsbD (ctzSpec x) = true) :=
+  ⟨fi_le n _, fun j hj => fi_low n (fun i => x.getLsbD i) j hj, fun h => fi_bit n (fun i => x.getLsbD i) h⟩
+
+theorem clzSpec_char {n : Nat} (x : BitVec n) :
+    clzSpec x ≤ n ∧ (∀ j < clzSpec x, x.getMsbD j = false) ∧ (clzSpec x < n → x.getMsbD (clzSpec x) = true) :=
+  ⟨fi_le n _, fun j hj => fi_low n (fun i => x.getMsbD i) j hj, fun h => fi_bit n (fun i => x.getMsbD i) h⟩
+
+example : u16CTZ_safe 0x0500 = 8 ∧ u16CTZ_fast 0x0500 = 8 ∧ u16CLZ_safe 0x0500 = 5 ∧ u16CLZ_fast 0x0500 = 5
+    ∧ u16CTZ_safe 0 = 16 ∧ u16CLZ_fast 0 = 16 := by decide
+example : u32CTZ_safe 0x00050000 = 16 ∧ u32CTZ_fast 0x00050000 = 16 ∧ u32CLZ_safe 0x00050000 = 13
+    ∧ u32CLZ_fast 0x00050000 = 13 ∧ u32CTZ_fast 0 = 32 ∧ u32CLZ_safe 0 = 32 := by decide
+example : u64CTZ_safe 0x0000050000000000 = 40 ∧ u64CTZ_fast 0x0000050000000000 = 40
+    ∧ u64CLZ_safe 0x0000050000000000 = 21 ∧ u64CLZ_fast 0x0000050000000000 = 21
+    ∧ u64CTZ_safe 0 = 64 ∧ u64CLZ_fast 0 = 64 := by decide
+example : ctzSpec (0x0500 : BitVec 16) = 8 ∧ clzSpec (0x0500 : BitVec 16) = 5 := by decide
+
+end UNN
 
 end Bee2V.C14
